@@ -212,3 +212,43 @@ func VerifC08_Concurrent() {
 	vpAssert(errA == nil || errB == nil, "free-lock-is-acquired-by-one")
 	vpReach("end")
 }
+
+// VerifC07_Mixed: two concurrent atomic operations of possibly different kinds on one key - Incr, Decr or
+// IncrByFloat each, through any pair of entry members: no update is lost (the final value is the initial value plus
+// both effects) and the two returned values are those of one of the two serial orders.
+func VerifC07_Mixed() {
+	cl := vpTwoMembers(1+vpChoose("replicas", 2), 0)
+	ctx := context.Background()
+	base := 0.0
+	if vpChoose("init", 2) == 1 {
+		base = 10
+		vpAssume(vpDMap(cl.members[0], "d").Put(ctx, "n", 10, nil) == nil)
+	}
+	op := func(dm *DMap, kind int, d int) (float64, float64, error) {
+		switch kind {
+		case 0:
+			v, err := dm.Incr(ctx, "n", d)
+			return float64(v), float64(d), err
+		case 1:
+			v, err := dm.Decr(ctx, "n", d)
+			return float64(v), -float64(d), err
+		}
+		v, err := dm.IncrByFloat(ctx, "n", float64(d))
+		return v, float64(d), err
+	}
+	kindA, kindB := vpChoose("kindA", 3), vpChoose("kindB", 3)
+	vpAssume(kindA != kindB) // equal kinds are VerifC07_Atomic's subject
+	dmA, dmB := vpDMap(cl.members[vpChoose("entryA", 2)], "d"), vpDMap(cl.members[vpChoose("entryB", 2)], "d")
+	var gotA, gotB, effA, effB float64
+	var errA, errB error
+	vpGo(func() { gotA, effA, errA = op(dmA, kindA, 1) })
+	vpGo(func() { gotB, effB, errB = op(dmB, kindB, 5) })
+	vpJoin()
+	vpAssert(errA == nil && errB == nil, "atomic-op-succeeds")
+	fin, err := vpDMap(cl.members[0], "d").IncrByFloat(ctx, "n", 0)
+	vpAssert(err == nil && fin == base+effA+effB, "no-update-is-lost")
+	ab := gotA == base+effA && gotB == base+effA+effB
+	ba := gotB == base+effB && gotA == base+effA+effB
+	vpAssert(ab || ba, "returned-values-form-a-serial-order")
+	vpReach("end")
+}
